@@ -16,13 +16,14 @@ func (a *analysis) whyBad(fi *fnInfo, at *node, x int) []string {
 		}
 	}
 	type st struct {
-		n *node
-		v int
+		n      *node
+		v      int
+		nn, cl bool // which guarantee is missing
 	}
-	bad := func(n *node, v int) bool { return !(n.nn.has(v) && n.cl.has(v)) }
 	prev := map[st]st{}
-	seen := map[st]bool{{at, x}: true}
-	queue := []st{{at, x}}
+	start := st{at, x, !at.nn.has(x), !at.cl.has(x)}
+	seen := map[st]bool{start: true}
+	queue := []st{start}
 	vn := func(v int) string { return g.vars[v].name }
 	describe := func(s st, origin string) []string {
 		var steps []string
@@ -63,17 +64,19 @@ func (a *analysis) whyBad(fi *fnInfo, at *node, x int) []string {
 					continue
 				}
 				out := a.flow(p, state{p.nn, p.cl}, k)
-				if out.nn.has(cur.v) && out.cl.has(cur.v) {
-					continue // good along this edge
+				missNN := cur.nn && !out.nn.has(cur.v)
+				missCL := cur.cl && !out.cl.has(cur.v)
+				if !missNN && !missCL {
+					continue // what the use needs holds along this edge
 				}
-				next := st{p, cur.v}
+				next := st{p, cur.v, missNN, missCL}
 				origin := ""
 				switch p.kind {
 				case kSet:
 					if p.x == cur.v {
 						switch p.rhs {
 						case rCopy:
-							next = st{p, p.y}
+							next = st{p, p.y, missNN, missCL}
 						case rNil:
 							origin = fmt.Sprintf("%s %s := nil", a.pk.posString(p.pos), vn(cur.v))
 						case rUnknown, rUnknownDirty:
@@ -108,11 +111,13 @@ func (a *analysis) whyBad(fi *fnInfo, at *node, x int) []string {
 					}
 				}
 				if origin != "" {
-					prev[st{p, -1}] = cur
-					return describe(st{p, -1}, origin)
+					prev[st{p, -1, false, false}] = cur
+					return describe(st{p, -1, false, false}, origin)
 				}
-				if !bad(p, next.v) && next.v == cur.v && p.kind != kSet {
-					// the variable is good on entry to p but not after it: cannot happen for other kinds
+				// the guarantee may have been lost at p itself (e.g. gained only on the other branch)
+				next.nn = next.nn && !p.nn.has(next.v)
+				next.cl = next.cl && !p.cl.has(next.v)
+				if !next.nn && !next.cl {
 					continue
 				}
 				if !seen[next] {
